@@ -306,14 +306,28 @@ fn size_class(n: usize, ps: u64) -> &'static str {
     }
 }
 
-struct Run<'c> {
-    cfg: &'c ExecCfg,
-    out: Outcome,
-    ps: u64,
-    cur_tx: usize,
-    cur_op: Option<usize>,
-    last_shape: Option<fileck::BucketShape>,
-    last_file_len: u64,
+pub struct Run<'c> {
+    pub cfg: &'c ExecCfg,
+    pub out: Outcome,
+    pub ps: u64,
+    pub cur_tx: usize,
+    pub cur_op: Option<usize>,
+    pub last_shape: Option<fileck::BucketShape>,
+    pub last_file_len: u64,
+}
+
+impl<'c> Run<'c> {
+    pub fn new(cfg: &'c ExecCfg, ps: u64) -> Run<'c> {
+        Run {
+            cfg,
+            out: Outcome::default(),
+            ps,
+            cur_tx: 0,
+            cur_op: None,
+            last_shape: None,
+            last_file_len: 0,
+        }
+    }
 }
 
 impl<'c> Run<'c> {
@@ -665,6 +679,615 @@ fn phase_group(phase: &str) -> &'static str {
     }
 }
 
+/// Execute one write-transaction script against `db` and the committed model
+/// (which is replaced on a successful commit), with all configured checks.
+/// On an unexpected outcome `run.out.aborted` is set.
+pub fn exec_tx(run: &mut Run, db: &DB, path: &Path, script: &TxScript, ti: usize, committed_ref: &mut MBucket) {
+    run.cur_tx = ti;
+    run.cur_op = None;
+    let mut committed = committed_ref.clone();
+    exec_tx_inner(run, db, path, script, &mut committed);
+    *committed_ref = committed;
+}
+
+fn exec_tx_inner(run: &mut Run, db: &DB, path: &Path, script: &TxScript, committed_out: &mut MBucket) {
+    let mut committed = committed_out.clone();
+    // expand all byte strings first: keys must outlive the transaction
+    let keys: Vec<Vec<u8>> = script
+        .ops
+        .iter()
+        .map(|op| match op {
+            Op::TxCreate { k, .. }
+            | Op::TxGet { k, .. }
+            | Op::TxGetOrCreate { k, .. }
+            | Op::TxDelete { k, .. }
+            | Op::Put { k, .. }
+            | Op::Get { k, .. }
+            | Op::GetKv { k, .. }
+            | Op::Delete { k, .. }
+            | Op::Create { k, .. }
+            | Op::GetB { k, .. }
+            | Op::GetOrCreate { k, .. }
+            | Op::DeleteB { k, .. }
+            | Op::Seek { k, .. } => k.bytes(),
+            _ => Vec::new(),
+        })
+        .collect();
+    let vals: Vec<Vec<u8>> = script
+        .ops
+        .iter()
+        .map(|op| match op {
+            Op::Put { v, .. } => v.bytes(),
+            _ => Vec::new(),
+        })
+        .collect();
+    let mut bound_arena: Vec<Vec<u8>> = Vec::new();
+    let bounds: Vec<((u8, usize), (u8, usize))> = script
+        .ops
+        .iter()
+        .map(|op| match op {
+            Op::Range { lo, hi, .. } => {
+                let a = to_bound(lo, &mut bound_arena);
+                let b = to_bound(hi, &mut bound_arena);
+                (a, b)
+            }
+            _ => ((2, 0), (2, 0)),
+        })
+        .collect();
+    for op in &script.ops {
+        if let Op::Put { k, v, how, vhow, .. } = op {
+            *run.out.stats.how_used.entry(format!("{:?}", how)).or_insert(0) += 1;
+            *run.out.stats.how_used.entry(format!("{:?}", vhow)).or_insert(0) += 1;
+            let kl = k.pre.len() + k.fill + k.post.len();
+            *run.out
+                .stats
+                .key_classes
+                .entry(size_class(kl, run.ps).into())
+                .or_insert(0) += 1;
+            *run.out
+                .stats
+                .val_classes
+                .entry(size_class(v.len, run.ps).into())
+                .or_insert(0) += 1;
+        }
+    }
+
+    let pre_hash = if run.cfg.rollback_trace && script.end == End::Rollback {
+        Some((
+            util::fingerprint(&std::fs::read(path).unwrap_or_default()),
+            db.verif_state(),
+        ))
+    } else {
+        None
+    };
+
+    let mut work = committed.clone();
+    let mut ended_by_misuse = false;
+    let mut n_bucket_deletes = 0u32;
+    let mut deleted_paths: Vec<Vec<Vec<u8>>> = Vec::new();
+    let mut nested_then_ancestor = false;
+    let commit_result;
+    {
+        let tx = match db.tx(true) {
+            Ok(tx) => tx,
+            Err(e) => {
+                run.viol(
+                    Class::UnexpectedErr,
+                    "begin:err".into(),
+                    format!("db.tx(true) failed: {}", e),
+                );
+                run.out.aborted = true;
+                return;
+            }
+        };
+        {
+            let mut handles: Vec<Option<Bucket>> = Vec::new();
+            let mut hs = Handles::default();
+            let mut handed: Vec<(Data, Item)> = Vec::new();
+            let mut handed_kv: Vec<(jammdb::KVPair, Vec<u8>, Vec<u8>)> = Vec::new();
+            for (oi, op) in script.ops.iter().enumerate() {
+                run.cur_op = Some(oi);
+                run.out.stats.ops += 1;
+                // resolve the handle, skip ops on handles that are not live (shrunk replays)
+                let hidx = match op {
+                    Op::Put { h, .. }
+                    | Op::Get { h, .. }
+                    | Op::GetKv { h, .. }
+                    | Op::Delete { h, .. }
+                    | Op::Create { h, .. }
+                    | Op::GetB { h, .. }
+                    | Op::GetOrCreate { h, .. }
+                    | Op::DeleteB { h, .. }
+                    | Op::Scan { h }
+                    | Op::Seek { h, .. }
+                    | Op::Range { h, .. }
+                    | Op::Buckets { h }
+                    | Op::KvPairs { h }
+                    | Op::NextInt { h } => Some(*h),
+                    _ => None,
+                };
+                if let Some(hi) = hidx {
+                    if hi >= hs.v.len() || hs.v[hi].state != HState::Live {
+                        if op.takes_slot() {
+                            handles.push(None);
+                            hs.push_dead();
+                        }
+                        continue;
+                    }
+                }
+                if let Op::Skip { slot } = op {
+                    if *slot {
+                        handles.push(None);
+                        hs.push_dead();
+                    }
+                    continue;
+                }
+                let hpath: Vec<Vec<u8>> = hidx.map(|i| hs.v[i].path.clone()).unwrap_or_default();
+                let key: &[u8] = &keys[oi];
+                match op {
+                    Op::TxCreate { how, .. } => {
+                        let want = work.create_bucket(key);
+                        let real = with_tb!(*how, key, |k| tx.create_bucket(k));
+                        if run.cmp_unit(op, &real, &want) {
+                            if let Ok(b) = real {
+                                handles.push(Some(b));
+                                hs.push(vec![key.to_vec()]);
+                            } else {
+                                handles.push(None);
+                                hs.push_dead();
+                            }
+                        } else {
+                            run.out.aborted = true;
+                        }
+                    }
+                    Op::TxGet { how, .. } => {
+                        let want = work.get_bucket(key);
+                        let real = with_tb!(*how, key, |k| tx.get_bucket(k));
+                        if run.cmp_unit(op, &real, &want) {
+                            if let Ok(b) = real {
+                                handles.push(Some(b));
+                                hs.push(vec![key.to_vec()]);
+                            } else {
+                                handles.push(None);
+                                hs.push_dead();
+                            }
+                        } else {
+                            run.out.aborted = true;
+                        }
+                    }
+                    Op::TxGetOrCreate { how, .. } => {
+                        let want = work.get_or_create_bucket(key).map(|_| ());
+                        let real = with_tb!(*how, key, |k| tx.get_or_create_bucket(k));
+                        if run.cmp_unit(op, &real, &want) {
+                            if let Ok(b) = real {
+                                handles.push(Some(b));
+                                hs.push(vec![key.to_vec()]);
+                            } else {
+                                handles.push(None);
+                                hs.push_dead();
+                            }
+                        } else {
+                            run.out.aborted = true;
+                        }
+                    }
+                    Op::TxDelete { how, .. } => {
+                        let want = work.delete_bucket(key);
+                        let real = with_tb!(*how, key, |k| tx.delete_bucket(k));
+                        if run.cmp_unit(op, &real, &want) {
+                            if want.is_ok() {
+                                let p = vec![key.to_vec()];
+                                hs.on_bucket_deleted(&p);
+                                n_bucket_deletes += 1;
+                                if deleted_paths.iter().any(|d| d.len() > 1 && d[0] == p[0]) {
+                                    nested_then_ancestor = true;
+                                }
+                                deleted_paths.push(p);
+                            }
+                        } else {
+                            run.out.aborted = true;
+                        }
+                    }
+                    Op::TxBuckets => {
+                        let real: Vec<Item> = tx
+                            .buckets()
+                            .map(|(n, _)| Item::Bucket(n.name().to_vec()))
+                            .collect();
+                        let want: Vec<Item> = work
+                            .items()
+                            .into_iter()
+                            .filter(|i| matches!(i, Item::Bucket(_)))
+                            .collect();
+                        run.record(op.name(), "ok");
+                        run.cmp_items(op, "tx.buckets", &real, &want);
+                    }
+                    Op::Put { how, vhow, .. } => {
+                        let val: &[u8] = &vals[oi];
+                        let want = work.at_mut(&hpath).unwrap().put(key, val);
+                        let b = handles[hidx.unwrap()].as_ref().unwrap();
+                        let real = with_tb!(*how, key, |k| with_tb!(*vhow, val, |v| b.put(k, v)));
+                        let wu: Result<(), ErrKind> = want.as_ref().map(|_| ()).map_err(|e| *e);
+                        if run.cmp_unit(op, &real, &wu) {
+                            if let (Ok(real_old), Ok(want_old)) = (real, want) {
+                                let ro = real_old
+                                    .as_ref()
+                                    .map(|kv| (kv.key().to_vec(), kv.value().to_vec()));
+                                if ro != want_old {
+                                    run.viol(
+                                        Class::OpResult,
+                                        "put:old-value".into(),
+                                        format!(
+                                            "{:?}: previous pair returned {:?}, model {:?}",
+                                            op,
+                                            ro.as_ref().map(|x| (show(&x.0), show(&x.1))),
+                                            want_old.as_ref().map(|x| (show(&x.0), show(&x.1)))
+                                        ),
+                                    );
+                                } else if let (Some(kv), Some((wk, wv))) = (real_old, want_old) {
+                                    if run.cfg.recheck_handed_back && handed_kv.len() < 64 {
+                                        handed_kv.push((kv, wk, wv));
+                                    }
+                                }
+                            }
+                        } else {
+                            run.out.aborted = true;
+                        }
+                    }
+                    Op::Get { .. } => {
+                        let want = work.at(&hpath).unwrap().item(key);
+                        let b = handles[hidx.unwrap()].as_ref().unwrap();
+                        let real = b.get(key);
+                        let ri = real.as_ref().map(item_of);
+                        run.record(op.name(), if ri.is_some() { "some" } else { "none" });
+                        if ri != want {
+                            run.viol(
+                                Class::ReadInTx,
+                                format!(
+                                    "get:{}",
+                                    if want.is_some() && ri.is_none() { "missing" } else { "wrong" }
+                                ),
+                                format!(
+                                    "{:?}: get = {:?}, model {:?}",
+                                    op,
+                                    ri.as_ref().map(|i| show(i.key())),
+                                    want.as_ref().map(|i| show(i.key()))
+                                ),
+                            );
+                        } else if let (Some(d), Some(w)) = (real, want) {
+                            if run.cfg.recheck_handed_back && handed.len() < 64 {
+                                handed.push((d, w));
+                            }
+                        }
+                    }
+                    Op::GetKv { .. } => {
+                        let want = match work.at(&hpath).unwrap().item(key) {
+                            Some(Item::Kv(k, v)) => Some((k, v)),
+                            _ => None,
+                        };
+                        let b = handles[hidx.unwrap()].as_ref().unwrap();
+                        let real = b
+                            .get_kv(key)
+                            .map(|kv| (kv.key().to_vec(), kv.value().to_vec()));
+                        run.record(op.name(), if real.is_some() { "some" } else { "none" });
+                        if real != want {
+                            run.viol(
+                                Class::ReadInTx,
+                                "get_kv:wrong".into(),
+                                format!("{:?}: get_kv differs from the model", op),
+                            );
+                        }
+                    }
+                    Op::Delete { .. } => {
+                        let want = work.at_mut(&hpath).unwrap().delete(key);
+                        let b = handles[hidx.unwrap()].as_ref().unwrap();
+                        let real = b.delete(key);
+                        let wu: Result<(), ErrKind> = want.as_ref().map(|_| ()).map_err(|e| *e);
+                        if run.cmp_unit(op, &real, &wu) {
+                            if let (Ok(kv), Ok((wk, wv))) = (&real, &want) {
+                                if kv.key() != wk.as_slice() || kv.value() != wv.as_slice() {
+                                    run.viol(
+                                        Class::OpResult,
+                                        "delete:returned-pair".into(),
+                                        format!("{:?}: removed pair differs from the model", op),
+                                    );
+                                }
+                            }
+                        } else {
+                            run.out.aborted = true;
+                        }
+                    }
+                    Op::Create { how, .. } | Op::GetB { how, .. } | Op::GetOrCreate { how, .. } => {
+                        let wb = work.at_mut(&hpath).unwrap();
+                        let want = match op {
+                            Op::Create { .. } => wb.create_bucket(key),
+                            Op::GetB { .. } => wb.get_bucket(key),
+                            _ => wb.get_or_create_bucket(key).map(|_| ()),
+                        };
+                        let b = handles[hidx.unwrap()].as_ref().unwrap();
+                        let real = match op {
+                            Op::Create { .. } => with_tb!(*how, key, |k| b.create_bucket(k)),
+                            Op::GetB { .. } => with_tb!(*how, key, |k| b.get_bucket(k)),
+                            _ => with_tb!(*how, key, |k| b.get_or_create_bucket(k)),
+                        };
+                        if run.cmp_unit(op, &real, &want) {
+                            if let Ok(nb) = real {
+                                handles.push(Some(nb));
+                                let mut p = hpath.clone();
+                                p.push(key.to_vec());
+                                hs.push(p);
+                            } else {
+                                handles.push(None);
+                                hs.push_dead();
+                            }
+                        } else {
+                            run.out.aborted = true;
+                        }
+                    }
+                    Op::DeleteB { how, .. } => {
+                        let want = work.at_mut(&hpath).unwrap().delete_bucket(key);
+                        let b = handles[hidx.unwrap()].as_ref().unwrap();
+                        let real = with_tb!(*how, key, |k| b.delete_bucket(k));
+                        if run.cmp_unit(op, &real, &want) {
+                            if want.is_ok() {
+                                let mut p = hpath.clone();
+                                p.push(key.to_vec());
+                                hs.on_bucket_deleted(&p);
+                                n_bucket_deletes += 1;
+                                if deleted_paths
+                                    .iter()
+                                    .any(|d| d.len() > p.len() && d[..p.len()] == p[..])
+                                {
+                                    nested_then_ancestor = true;
+                                }
+                                deleted_paths.push(p);
+                            }
+                        } else {
+                            run.out.aborted = true;
+                        }
+                    }
+                    Op::Scan { .. } => {
+                        let b = handles[hidx.unwrap()].as_ref().unwrap();
+                        let mut c = b.cursor();
+                        let mut real: Vec<Item> = Vec::new();
+                        for d in c.by_ref() {
+                            real.push(item_of(&d));
+                        }
+                        // calling next() after the end must stay harmless
+                        for _ in 0..2 {
+                            if let Some(d) = c.next() {
+                                real.push(item_of(&d));
+                            }
+                        }
+                        let want = work.at(&hpath).unwrap().items();
+                        run.record(op.name(), "ok");
+                        run.cmp_items(op, "cursor", &real, &want);
+                    }
+                    Op::Seek { .. } => {
+                        let b = handles[hidx.unwrap()].as_ref().unwrap();
+                        let mb = work.at(&hpath).unwrap();
+                        let all = mb.items();
+                        run.record(op.name(), if mb.entries.contains_key(key) { "present" } else { "absent" });
+                        if let Some(d) = check_seek(b, mb, &all, key) {
+                            run.viol(Class::ReadInTx, "seek:wrong".into(), format!("{:?}: {}", op, d));
+                        }
+                    }
+                    Op::Range { .. } => {
+                        let (lo, hi) = bounds[oi];
+                        let lo = mk_bound(lo, &bound_arena);
+                        let hi = mk_bound(hi, &bound_arena);
+                        let b = handles[hidx.unwrap()].as_ref().unwrap();
+                        let real: Vec<Item> = b.range((lo, hi)).map(|d| item_of(&d)).collect();
+                        let want = work.at(&hpath).unwrap().items_in(lo, hi);
+                        run.record(op.name(), if want.is_empty() { "empty" } else { "nonempty" });
+                        run.cmp_items(op, "range", &real, &want);
+                    }
+                    Op::Buckets { .. } => {
+                        let b = handles[hidx.unwrap()].as_ref().unwrap();
+                        let real: Vec<Item> =
+                            b.buckets().map(|(n, _)| Item::Bucket(n.name().to_vec())).collect();
+                        let want: Vec<Item> = work
+                            .at(&hpath)
+                            .unwrap()
+                            .items()
+                            .into_iter()
+                            .filter(|i| matches!(i, Item::Bucket(_)))
+                            .collect();
+                        run.record(op.name(), "ok");
+                        run.cmp_items(op, "buckets", &real, &want);
+                    }
+                    Op::KvPairs { .. } => {
+                        let b = handles[hidx.unwrap()].as_ref().unwrap();
+                        let real: Vec<Item> = b
+                            .kv_pairs()
+                            .map(|kv| Item::Kv(kv.key().to_vec(), kv.value().to_vec()))
+                            .collect();
+                        let want: Vec<Item> = work
+                            .at(&hpath)
+                            .unwrap()
+                            .items()
+                            .into_iter()
+                            .filter(|i| matches!(i, Item::Kv(..)))
+                            .collect();
+                        run.record(op.name(), "ok");
+                        run.cmp_items(op, "kv_pairs", &real, &want);
+                    }
+                    Op::NextInt { .. } => {
+                        let b = handles[hidx.unwrap()].as_ref().unwrap();
+                        let real = b.next_int();
+                        let want = work.at(&hpath).unwrap().next_int;
+                        run.record(op.name(), "ok");
+                        if real != want {
+                            run.viol(
+                                Class::OpResult,
+                                "next_int:wrong".into(),
+                                format!("{:?}: next_int {} model {}", op, real, want),
+                            );
+                        }
+                    }
+                    Op::Skip { .. } => {}
+                    Op::Misuse { h: mh, what } => {
+                        if *mh >= hs.v.len() || hs.v[*mh].state != HState::Deleted {
+                            continue;
+                        }
+                        let b = handles[*mh].as_ref().unwrap();
+                        let r = util::catch(|| misuse(b, *what));
+                        match r {
+                            Err(p) if p.msg.contains("deleted bucket") => {
+                                run.out.stats.expected_panics += 1;
+                                run.record(op.name(), "panic-as-documented");
+                            }
+                            Err(p) => {
+                                run.viol(
+                                    Class::Panic,
+                                    format!("misuse:{}", util::panic_signature(&p)),
+                                    format!(
+                                        "use of a deleted bucket handle panicked with an undocumented message at {}:{}: {}",
+                                        p.file, p.line, p.msg
+                                    ),
+                                );
+                            }
+                            Ok(()) => {
+                                run.viol(
+                                    Class::MisuseNoPanic,
+                                    format!("misuse:no-panic:{}", what % 14),
+                                    format!("{:?}: use of a handle to a deleted bucket did not panic", op),
+                                );
+                            }
+                        }
+                        ended_by_misuse = true;
+                    }
+                }
+                if ended_by_misuse || run.out.aborted {
+                    break;
+                }
+                if run.cfg.verify_each_op {
+                    run.out.stats.full_verifications += 1;
+                    if let Some(d) = verify_tx_against(&tx, &work, true) {
+                        run.viol(
+                            Class::ReadInTx,
+                            format!("in-tx-view:{}", classify_diff(&d)),
+                            format!("after {:?}: {}", op, d),
+                        );
+                        run.out.aborted = true;
+                        break;
+                    }
+                }
+            }
+            run.cur_op = None;
+            // values handed out earlier must still read the same at the end of the transaction
+            for (d, w) in &handed {
+                if &item_of(d) != w {
+                    run.viol(
+                        Class::HandedBack,
+                        "handed-back:changed".into(),
+                        format!(
+                            "a value returned by get({}) changed before the transaction ended",
+                            show(w.key())
+                        ),
+                    );
+                    break;
+                }
+            }
+            for (kv, k, v) in &handed_kv {
+                if kv.key() != k.as_slice() || kv.value() != v.as_slice() {
+                    run.viol(
+                        Class::HandedBack,
+                        "handed-back:changed".into(),
+                        format!(
+                            "the previous pair returned by put({}) changed before the transaction ended",
+                            show(k)
+                        ),
+                    );
+                    break;
+                }
+            }
+        }
+        if run.out.aborted {
+            drop(tx);
+            return;
+        }
+        run.cur_op = Some(script.ops.len());
+        if script.end == End::Commit && !ended_by_misuse {
+            commit_result = Some(tx.commit());
+        } else {
+            drop(tx);
+            commit_result = None;
+        }
+        run.cur_op = None;
+    }
+    match commit_result {
+        Some(Ok(())) => {
+            committed = work;
+            run.out.stats.commits += 1;
+            run.record("commit", "ok");
+            if n_bucket_deletes >= 2 {
+                run.out.stats.multi_bucket_delete_txs += 1;
+            }
+            if nested_then_ancestor {
+                run.out.stats.nested_then_ancestor_delete_txs += 1;
+            }
+        }
+        Some(Err(e)) => {
+            run.record("commit", "err");
+            run.viol(
+                Class::UnexpectedErr,
+                format!("commit:err:{:?}", ErrKind::of(&e)),
+                format!("commit of a valid transaction failed: {}", e),
+            );
+            run.out.aborted = true;
+            return;
+        }
+        None => {
+            run.out.stats.rollbacks += 1;
+            run.record("rollback", "ok");
+            if let Some((fp, st)) = pre_hash {
+                run.out.stats.rollback_checks += 1;
+                let now = util::fingerprint(&std::fs::read(path).unwrap_or_default());
+                if now != fp {
+                    run.viol(
+                        Class::RollbackTrace,
+                        "rollback:file-bytes-changed".into(),
+                        "the file's bytes changed across a dropped write transaction".into(),
+                    );
+                }
+                let st2 = db.verif_state();
+                if st2 != st {
+                    run.viol(
+                        Class::RollbackTrace,
+                        "rollback:shared-state-changed".into(),
+                        format!(
+                            "shared bookkeeping changed across a dropped write transaction: {:?} -> {:?}",
+                            st, st2
+                        ),
+                    );
+                }
+            }
+        }
+    }
+    // what a fresh transaction sees now
+    if run.cfg.verify_after_commit {
+        let tx = db.tx(false).expect("read tx");
+        run.out.stats.full_verifications += 1;
+        if let Some(d) = verify_tx_against(&tx, &committed, false) {
+            let sig = if commit_result.is_some() {
+                format!("post-commit:{}", classify_diff(&d))
+            } else {
+                format!("post-rollback:{}", classify_diff(&d))
+            };
+            run.viol(
+                if commit_result.is_some() { Class::PostCommit } else { Class::RollbackTrace },
+                sig,
+                format!("fresh transaction after {:?}: {}", script.end, d),
+            );
+            run.out.aborted = true;
+            return;
+        }
+    }
+    if run.cfg.fileck_each_commit && commit_result.is_some() {
+        file_checks(run, &db, path, &committed);
+    }
+    *committed_out = committed;
+}
+
 fn run_inner(h: &History, run: &mut Run, path: &Path) {
     let mut db = match open_db(path, h) {
         Ok(db) => db,
@@ -677,600 +1300,9 @@ fn run_inner(h: &History, run: &mut Run, path: &Path) {
     let mut committed = MBucket::default();
     run.last_file_len = std::fs::metadata(path).map(|m| m.len()).unwrap_or(0);
     for (ti, script) in h.txs.iter().enumerate() {
-        run.cur_tx = ti;
-        run.cur_op = None;
-        // expand all byte strings first: keys must outlive the transaction
-        let keys: Vec<Vec<u8>> = script
-            .ops
-            .iter()
-            .map(|op| match op {
-                Op::TxCreate { k, .. }
-                | Op::TxGet { k, .. }
-                | Op::TxGetOrCreate { k, .. }
-                | Op::TxDelete { k, .. }
-                | Op::Put { k, .. }
-                | Op::Get { k, .. }
-                | Op::GetKv { k, .. }
-                | Op::Delete { k, .. }
-                | Op::Create { k, .. }
-                | Op::GetB { k, .. }
-                | Op::GetOrCreate { k, .. }
-                | Op::DeleteB { k, .. }
-                | Op::Seek { k, .. } => k.bytes(),
-                _ => Vec::new(),
-            })
-            .collect();
-        let vals: Vec<Vec<u8>> = script
-            .ops
-            .iter()
-            .map(|op| match op {
-                Op::Put { v, .. } => v.bytes(),
-                _ => Vec::new(),
-            })
-            .collect();
-        let mut bound_arena: Vec<Vec<u8>> = Vec::new();
-        let bounds: Vec<((u8, usize), (u8, usize))> = script
-            .ops
-            .iter()
-            .map(|op| match op {
-                Op::Range { lo, hi, .. } => {
-                    let a = to_bound(lo, &mut bound_arena);
-                    let b = to_bound(hi, &mut bound_arena);
-                    (a, b)
-                }
-                _ => ((2, 0), (2, 0)),
-            })
-            .collect();
-        for op in &script.ops {
-            if let Op::Put { k, v, how, vhow, .. } = op {
-                *run.out.stats.how_used.entry(format!("{:?}", how)).or_insert(0) += 1;
-                *run.out.stats.how_used.entry(format!("{:?}", vhow)).or_insert(0) += 1;
-                let kl = k.pre.len() + k.fill + k.post.len();
-                *run.out
-                    .stats
-                    .key_classes
-                    .entry(size_class(kl, h.pagesize).into())
-                    .or_insert(0) += 1;
-                *run.out
-                    .stats
-                    .val_classes
-                    .entry(size_class(v.len, h.pagesize).into())
-                    .or_insert(0) += 1;
-            }
-        }
-
-        let pre_hash = if run.cfg.rollback_trace && script.end == End::Rollback {
-            Some((
-                util::fingerprint(&std::fs::read(path).unwrap_or_default()),
-                db.verif_state(),
-            ))
-        } else {
-            None
-        };
-
-        let mut work = committed.clone();
-        let mut ended_by_misuse = false;
-        let mut n_bucket_deletes = 0u32;
-        let mut deleted_paths: Vec<Vec<Vec<u8>>> = Vec::new();
-        let mut nested_then_ancestor = false;
-        let commit_result;
-        {
-            let tx = match db.tx(true) {
-                Ok(tx) => tx,
-                Err(e) => {
-                    run.viol(
-                        Class::UnexpectedErr,
-                        "begin:err".into(),
-                        format!("db.tx(true) failed: {}", e),
-                    );
-                    run.out.aborted = true;
-                    return;
-                }
-            };
-            {
-                let mut handles: Vec<Option<Bucket>> = Vec::new();
-                let mut hs = Handles::default();
-                let mut handed: Vec<(Data, Item)> = Vec::new();
-                let mut handed_kv: Vec<(jammdb::KVPair, Vec<u8>, Vec<u8>)> = Vec::new();
-                for (oi, op) in script.ops.iter().enumerate() {
-                    run.cur_op = Some(oi);
-                    run.out.stats.ops += 1;
-                    // resolve the handle, skip ops on handles that are not live (shrunk replays)
-                    let hidx = match op {
-                        Op::Put { h, .. }
-                        | Op::Get { h, .. }
-                        | Op::GetKv { h, .. }
-                        | Op::Delete { h, .. }
-                        | Op::Create { h, .. }
-                        | Op::GetB { h, .. }
-                        | Op::GetOrCreate { h, .. }
-                        | Op::DeleteB { h, .. }
-                        | Op::Scan { h }
-                        | Op::Seek { h, .. }
-                        | Op::Range { h, .. }
-                        | Op::Buckets { h }
-                        | Op::KvPairs { h }
-                        | Op::NextInt { h } => Some(*h),
-                        _ => None,
-                    };
-                    if let Some(hi) = hidx {
-                        if hi >= hs.v.len() || hs.v[hi].state != HState::Live {
-                            if op.takes_slot() {
-                                handles.push(None);
-                                hs.push_dead();
-                            }
-                            continue;
-                        }
-                    }
-                    if let Op::Skip { slot } = op {
-                        if *slot {
-                            handles.push(None);
-                            hs.push_dead();
-                        }
-                        continue;
-                    }
-                    let hpath: Vec<Vec<u8>> = hidx.map(|i| hs.v[i].path.clone()).unwrap_or_default();
-                    let key: &[u8] = &keys[oi];
-                    match op {
-                        Op::TxCreate { how, .. } => {
-                            let want = work.create_bucket(key);
-                            let real = with_tb!(*how, key, |k| tx.create_bucket(k));
-                            if run.cmp_unit(op, &real, &want) {
-                                if let Ok(b) = real {
-                                    handles.push(Some(b));
-                                    hs.push(vec![key.to_vec()]);
-                                } else {
-                                    handles.push(None);
-                                    hs.push_dead();
-                                }
-                            } else {
-                                run.out.aborted = true;
-                            }
-                        }
-                        Op::TxGet { how, .. } => {
-                            let want = work.get_bucket(key);
-                            let real = with_tb!(*how, key, |k| tx.get_bucket(k));
-                            if run.cmp_unit(op, &real, &want) {
-                                if let Ok(b) = real {
-                                    handles.push(Some(b));
-                                    hs.push(vec![key.to_vec()]);
-                                } else {
-                                    handles.push(None);
-                                    hs.push_dead();
-                                }
-                            } else {
-                                run.out.aborted = true;
-                            }
-                        }
-                        Op::TxGetOrCreate { how, .. } => {
-                            let want = work.get_or_create_bucket(key).map(|_| ());
-                            let real = with_tb!(*how, key, |k| tx.get_or_create_bucket(k));
-                            if run.cmp_unit(op, &real, &want) {
-                                if let Ok(b) = real {
-                                    handles.push(Some(b));
-                                    hs.push(vec![key.to_vec()]);
-                                } else {
-                                    handles.push(None);
-                                    hs.push_dead();
-                                }
-                            } else {
-                                run.out.aborted = true;
-                            }
-                        }
-                        Op::TxDelete { how, .. } => {
-                            let want = work.delete_bucket(key);
-                            let real = with_tb!(*how, key, |k| tx.delete_bucket(k));
-                            if run.cmp_unit(op, &real, &want) {
-                                if want.is_ok() {
-                                    let p = vec![key.to_vec()];
-                                    hs.on_bucket_deleted(&p);
-                                    n_bucket_deletes += 1;
-                                    if deleted_paths.iter().any(|d| d.len() > 1 && d[0] == p[0]) {
-                                        nested_then_ancestor = true;
-                                    }
-                                    deleted_paths.push(p);
-                                }
-                            } else {
-                                run.out.aborted = true;
-                            }
-                        }
-                        Op::TxBuckets => {
-                            let real: Vec<Item> = tx
-                                .buckets()
-                                .map(|(n, _)| Item::Bucket(n.name().to_vec()))
-                                .collect();
-                            let want: Vec<Item> = work
-                                .items()
-                                .into_iter()
-                                .filter(|i| matches!(i, Item::Bucket(_)))
-                                .collect();
-                            run.record(op.name(), "ok");
-                            run.cmp_items(op, "tx.buckets", &real, &want);
-                        }
-                        Op::Put { how, vhow, .. } => {
-                            let val: &[u8] = &vals[oi];
-                            let want = work.at_mut(&hpath).unwrap().put(key, val);
-                            let b = handles[hidx.unwrap()].as_ref().unwrap();
-                            let real = with_tb!(*how, key, |k| with_tb!(*vhow, val, |v| b.put(k, v)));
-                            let wu: Result<(), ErrKind> = want.as_ref().map(|_| ()).map_err(|e| *e);
-                            if run.cmp_unit(op, &real, &wu) {
-                                if let (Ok(real_old), Ok(want_old)) = (real, want) {
-                                    let ro = real_old
-                                        .as_ref()
-                                        .map(|kv| (kv.key().to_vec(), kv.value().to_vec()));
-                                    if ro != want_old {
-                                        run.viol(
-                                            Class::OpResult,
-                                            "put:old-value".into(),
-                                            format!(
-                                                "{:?}: previous pair returned {:?}, model {:?}",
-                                                op,
-                                                ro.as_ref().map(|x| (show(&x.0), show(&x.1))),
-                                                want_old.as_ref().map(|x| (show(&x.0), show(&x.1)))
-                                            ),
-                                        );
-                                    } else if let (Some(kv), Some((wk, wv))) = (real_old, want_old) {
-                                        if run.cfg.recheck_handed_back && handed_kv.len() < 64 {
-                                            handed_kv.push((kv, wk, wv));
-                                        }
-                                    }
-                                }
-                            } else {
-                                run.out.aborted = true;
-                            }
-                        }
-                        Op::Get { .. } => {
-                            let want = work.at(&hpath).unwrap().item(key);
-                            let b = handles[hidx.unwrap()].as_ref().unwrap();
-                            let real = b.get(key);
-                            let ri = real.as_ref().map(item_of);
-                            run.record(op.name(), if ri.is_some() { "some" } else { "none" });
-                            if ri != want {
-                                run.viol(
-                                    Class::ReadInTx,
-                                    format!(
-                                        "get:{}",
-                                        if want.is_some() && ri.is_none() { "missing" } else { "wrong" }
-                                    ),
-                                    format!(
-                                        "{:?}: get = {:?}, model {:?}",
-                                        op,
-                                        ri.as_ref().map(|i| show(i.key())),
-                                        want.as_ref().map(|i| show(i.key()))
-                                    ),
-                                );
-                            } else if let (Some(d), Some(w)) = (real, want) {
-                                if run.cfg.recheck_handed_back && handed.len() < 64 {
-                                    handed.push((d, w));
-                                }
-                            }
-                        }
-                        Op::GetKv { .. } => {
-                            let want = match work.at(&hpath).unwrap().item(key) {
-                                Some(Item::Kv(k, v)) => Some((k, v)),
-                                _ => None,
-                            };
-                            let b = handles[hidx.unwrap()].as_ref().unwrap();
-                            let real = b
-                                .get_kv(key)
-                                .map(|kv| (kv.key().to_vec(), kv.value().to_vec()));
-                            run.record(op.name(), if real.is_some() { "some" } else { "none" });
-                            if real != want {
-                                run.viol(
-                                    Class::ReadInTx,
-                                    "get_kv:wrong".into(),
-                                    format!("{:?}: get_kv differs from the model", op),
-                                );
-                            }
-                        }
-                        Op::Delete { .. } => {
-                            let want = work.at_mut(&hpath).unwrap().delete(key);
-                            let b = handles[hidx.unwrap()].as_ref().unwrap();
-                            let real = b.delete(key);
-                            let wu: Result<(), ErrKind> = want.as_ref().map(|_| ()).map_err(|e| *e);
-                            if run.cmp_unit(op, &real, &wu) {
-                                if let (Ok(kv), Ok((wk, wv))) = (&real, &want) {
-                                    if kv.key() != wk.as_slice() || kv.value() != wv.as_slice() {
-                                        run.viol(
-                                            Class::OpResult,
-                                            "delete:returned-pair".into(),
-                                            format!("{:?}: removed pair differs from the model", op),
-                                        );
-                                    }
-                                }
-                            } else {
-                                run.out.aborted = true;
-                            }
-                        }
-                        Op::Create { how, .. } | Op::GetB { how, .. } | Op::GetOrCreate { how, .. } => {
-                            let wb = work.at_mut(&hpath).unwrap();
-                            let want = match op {
-                                Op::Create { .. } => wb.create_bucket(key),
-                                Op::GetB { .. } => wb.get_bucket(key),
-                                _ => wb.get_or_create_bucket(key).map(|_| ()),
-                            };
-                            let b = handles[hidx.unwrap()].as_ref().unwrap();
-                            let real = match op {
-                                Op::Create { .. } => with_tb!(*how, key, |k| b.create_bucket(k)),
-                                Op::GetB { .. } => with_tb!(*how, key, |k| b.get_bucket(k)),
-                                _ => with_tb!(*how, key, |k| b.get_or_create_bucket(k)),
-                            };
-                            if run.cmp_unit(op, &real, &want) {
-                                if let Ok(nb) = real {
-                                    handles.push(Some(nb));
-                                    let mut p = hpath.clone();
-                                    p.push(key.to_vec());
-                                    hs.push(p);
-                                } else {
-                                    handles.push(None);
-                                    hs.push_dead();
-                                }
-                            } else {
-                                run.out.aborted = true;
-                            }
-                        }
-                        Op::DeleteB { how, .. } => {
-                            let want = work.at_mut(&hpath).unwrap().delete_bucket(key);
-                            let b = handles[hidx.unwrap()].as_ref().unwrap();
-                            let real = with_tb!(*how, key, |k| b.delete_bucket(k));
-                            if run.cmp_unit(op, &real, &want) {
-                                if want.is_ok() {
-                                    let mut p = hpath.clone();
-                                    p.push(key.to_vec());
-                                    hs.on_bucket_deleted(&p);
-                                    n_bucket_deletes += 1;
-                                    if deleted_paths
-                                        .iter()
-                                        .any(|d| d.len() > p.len() && d[..p.len()] == p[..])
-                                    {
-                                        nested_then_ancestor = true;
-                                    }
-                                    deleted_paths.push(p);
-                                }
-                            } else {
-                                run.out.aborted = true;
-                            }
-                        }
-                        Op::Scan { .. } => {
-                            let b = handles[hidx.unwrap()].as_ref().unwrap();
-                            let mut c = b.cursor();
-                            let mut real: Vec<Item> = Vec::new();
-                            for d in c.by_ref() {
-                                real.push(item_of(&d));
-                            }
-                            // calling next() after the end must stay harmless
-                            for _ in 0..2 {
-                                if let Some(d) = c.next() {
-                                    real.push(item_of(&d));
-                                }
-                            }
-                            let want = work.at(&hpath).unwrap().items();
-                            run.record(op.name(), "ok");
-                            run.cmp_items(op, "cursor", &real, &want);
-                        }
-                        Op::Seek { .. } => {
-                            let b = handles[hidx.unwrap()].as_ref().unwrap();
-                            let mb = work.at(&hpath).unwrap();
-                            let all = mb.items();
-                            run.record(op.name(), if mb.entries.contains_key(key) { "present" } else { "absent" });
-                            if let Some(d) = check_seek(b, mb, &all, key) {
-                                run.viol(Class::ReadInTx, "seek:wrong".into(), format!("{:?}: {}", op, d));
-                            }
-                        }
-                        Op::Range { .. } => {
-                            let (lo, hi) = bounds[oi];
-                            let lo = mk_bound(lo, &bound_arena);
-                            let hi = mk_bound(hi, &bound_arena);
-                            let b = handles[hidx.unwrap()].as_ref().unwrap();
-                            let real: Vec<Item> = b.range((lo, hi)).map(|d| item_of(&d)).collect();
-                            let want = work.at(&hpath).unwrap().items_in(lo, hi);
-                            run.record(op.name(), if want.is_empty() { "empty" } else { "nonempty" });
-                            run.cmp_items(op, "range", &real, &want);
-                        }
-                        Op::Buckets { .. } => {
-                            let b = handles[hidx.unwrap()].as_ref().unwrap();
-                            let real: Vec<Item> =
-                                b.buckets().map(|(n, _)| Item::Bucket(n.name().to_vec())).collect();
-                            let want: Vec<Item> = work
-                                .at(&hpath)
-                                .unwrap()
-                                .items()
-                                .into_iter()
-                                .filter(|i| matches!(i, Item::Bucket(_)))
-                                .collect();
-                            run.record(op.name(), "ok");
-                            run.cmp_items(op, "buckets", &real, &want);
-                        }
-                        Op::KvPairs { .. } => {
-                            let b = handles[hidx.unwrap()].as_ref().unwrap();
-                            let real: Vec<Item> = b
-                                .kv_pairs()
-                                .map(|kv| Item::Kv(kv.key().to_vec(), kv.value().to_vec()))
-                                .collect();
-                            let want: Vec<Item> = work
-                                .at(&hpath)
-                                .unwrap()
-                                .items()
-                                .into_iter()
-                                .filter(|i| matches!(i, Item::Kv(..)))
-                                .collect();
-                            run.record(op.name(), "ok");
-                            run.cmp_items(op, "kv_pairs", &real, &want);
-                        }
-                        Op::NextInt { .. } => {
-                            let b = handles[hidx.unwrap()].as_ref().unwrap();
-                            let real = b.next_int();
-                            let want = work.at(&hpath).unwrap().next_int;
-                            run.record(op.name(), "ok");
-                            if real != want {
-                                run.viol(
-                                    Class::OpResult,
-                                    "next_int:wrong".into(),
-                                    format!("{:?}: next_int {} model {}", op, real, want),
-                                );
-                            }
-                        }
-                        Op::Skip { .. } => {}
-                        Op::Misuse { h: mh, what } => {
-                            if *mh >= hs.v.len() || hs.v[*mh].state != HState::Deleted {
-                                continue;
-                            }
-                            let b = handles[*mh].as_ref().unwrap();
-                            let r = util::catch(|| misuse(b, *what));
-                            match r {
-                                Err(p) if p.msg.contains("deleted bucket") => {
-                                    run.out.stats.expected_panics += 1;
-                                    run.record(op.name(), "panic-as-documented");
-                                }
-                                Err(p) => {
-                                    run.viol(
-                                        Class::Panic,
-                                        format!("misuse:{}", util::panic_signature(&p)),
-                                        format!(
-                                            "use of a deleted bucket handle panicked with an undocumented message at {}:{}: {}",
-                                            p.file, p.line, p.msg
-                                        ),
-                                    );
-                                }
-                                Ok(()) => {
-                                    run.viol(
-                                        Class::MisuseNoPanic,
-                                        format!("misuse:no-panic:{}", what % 14),
-                                        format!("{:?}: use of a handle to a deleted bucket did not panic", op),
-                                    );
-                                }
-                            }
-                            ended_by_misuse = true;
-                        }
-                    }
-                    if ended_by_misuse || run.out.aborted {
-                        break;
-                    }
-                    if run.cfg.verify_each_op {
-                        run.out.stats.full_verifications += 1;
-                        if let Some(d) = verify_tx_against(&tx, &work, true) {
-                            run.viol(
-                                Class::ReadInTx,
-                                format!("in-tx-view:{}", classify_diff(&d)),
-                                format!("after {:?}: {}", op, d),
-                            );
-                            run.out.aborted = true;
-                            break;
-                        }
-                    }
-                }
-                run.cur_op = None;
-                // values handed out earlier must still read the same at the end of the transaction
-                for (d, w) in &handed {
-                    if &item_of(d) != w {
-                        run.viol(
-                            Class::HandedBack,
-                            "handed-back:changed".into(),
-                            format!(
-                                "a value returned by get({}) changed before the transaction ended",
-                                show(w.key())
-                            ),
-                        );
-                        break;
-                    }
-                }
-                for (kv, k, v) in &handed_kv {
-                    if kv.key() != k.as_slice() || kv.value() != v.as_slice() {
-                        run.viol(
-                            Class::HandedBack,
-                            "handed-back:changed".into(),
-                            format!(
-                                "the previous pair returned by put({}) changed before the transaction ended",
-                                show(k)
-                            ),
-                        );
-                        break;
-                    }
-                }
-            }
-            if run.out.aborted {
-                drop(tx);
-                return;
-            }
-            run.cur_op = Some(script.ops.len());
-            if script.end == End::Commit && !ended_by_misuse {
-                commit_result = Some(tx.commit());
-            } else {
-                drop(tx);
-                commit_result = None;
-            }
-            run.cur_op = None;
-        }
-        match commit_result {
-            Some(Ok(())) => {
-                committed = work;
-                run.out.stats.commits += 1;
-                run.record("commit", "ok");
-                if n_bucket_deletes >= 2 {
-                    run.out.stats.multi_bucket_delete_txs += 1;
-                }
-                if nested_then_ancestor {
-                    run.out.stats.nested_then_ancestor_delete_txs += 1;
-                }
-            }
-            Some(Err(e)) => {
-                run.record("commit", "err");
-                run.viol(
-                    Class::UnexpectedErr,
-                    format!("commit:err:{:?}", ErrKind::of(&e)),
-                    format!("commit of a valid transaction failed: {}", e),
-                );
-                run.out.aborted = true;
-                return;
-            }
-            None => {
-                run.out.stats.rollbacks += 1;
-                run.record("rollback", "ok");
-                if let Some((fp, st)) = pre_hash {
-                    run.out.stats.rollback_checks += 1;
-                    let now = util::fingerprint(&std::fs::read(path).unwrap_or_default());
-                    if now != fp {
-                        run.viol(
-                            Class::RollbackTrace,
-                            "rollback:file-bytes-changed".into(),
-                            "the file's bytes changed across a dropped write transaction".into(),
-                        );
-                    }
-                    let st2 = db.verif_state();
-                    if st2 != st {
-                        run.viol(
-                            Class::RollbackTrace,
-                            "rollback:shared-state-changed".into(),
-                            format!(
-                                "shared bookkeeping changed across a dropped write transaction: {:?} -> {:?}",
-                                st, st2
-                            ),
-                        );
-                    }
-                }
-            }
-        }
-        // what a fresh transaction sees now
-        if run.cfg.verify_after_commit {
-            let tx = db.tx(false).expect("read tx");
-            run.out.stats.full_verifications += 1;
-            if let Some(d) = verify_tx_against(&tx, &committed, false) {
-                let sig = if commit_result.is_some() {
-                    format!("post-commit:{}", classify_diff(&d))
-                } else {
-                    format!("post-rollback:{}", classify_diff(&d))
-                };
-                run.viol(
-                    if commit_result.is_some() { Class::PostCommit } else { Class::RollbackTrace },
-                    sig,
-                    format!("fresh transaction after {:?}: {}", script.end, d),
-                );
-                run.out.aborted = true;
-                return;
-            }
-        }
-        if run.cfg.fileck_each_commit && commit_result.is_some() {
-            file_checks(run, &db, path, &committed);
+        exec_tx(run, &db, path, script, ti, &mut committed);
+        if run.out.aborted {
+            return;
         }
         if script.reopen {
             drop(db);
